@@ -696,6 +696,19 @@ def run_case(ctx):
         rng.shuffle(circuits)
         circuits.append(base)
         ctx.describe(f"history native={pname} n={n} params={params} " + " | ".join(repr(c)[:120] for c in circuits[:4]), True)
+        # before anything else: the state of an operation-free register asked of both simulators and then EDITED by
+        # the caller, legally, through the wavefunction's own item assignment (what a simulator hands out is the
+        # caller's) - every later simulation from the default state still starts from |0...0>
+        for s_ in (sim, psim):
+            for width in {n, n + 1}:
+                try:
+                    w0 = s_.get_wavefunction(Circuit(n_qubits=width))
+                    a0 = np.asarray(w0.amplitudes)
+                    if a0.dtype.kind in "fc":
+                        w0[:] = (np.roll(a0.reshape(-1), 1) * 1j).reshape(a0.shape)
+                        ctx.mon.note("history:idle-register-state-edited-by-the-caller")
+                except Exception:
+                    pass
         for c in circuits:
             gate_only = all(_is_gate_op(op) for op in c.operations)
             if gate_only and rng.random() < 0.7:
